@@ -161,6 +161,8 @@ def replay(body):
     print("message events:", [_short(e) for e in fam.message_events(tr)])
     print("expected      :", body.get("expected"))
     exp = body.get("expected")
-    ok = exp is None or core.json.dumps(fam.jsonable_sc(fam.message_events(tr))) == core.json.dumps(fam.jsonable_sc(fam.unjson_sc(exp)))
+    # both sides in the form the replay file uses: byte strings as hex text
+    norm = lambda v: core.json.loads(core.json.dumps(v, default=core._jsonable))
+    ok = exp is None or norm(fam.message_events(tr)) == norm(exp)
     print("REPLAY:", "property holds on this input" if ok else "VIOLATION reproduced")
     return 0 if ok else 1
